@@ -18,13 +18,15 @@ from vlib.common import Res, derive_seed, rng_of
 
 PROPERTY = "C16"
 LEVEL = "exploration"
-RULE = ("cases are seeded batches: (segment, point) pairs over 6 decades of length and of distance/length, any orientation, "
+RULE = ("every configuration (segment + point, segment pair, polyline pair, mesh + obstacle) is placed at an absolute size drawn "
+        "from four bands covering 1e-12 .. 1e8 (tiny < 1e-6, small < 1e-2, unit < 1e2, large), independently of all ratios. "
+        "Cases are seeded batches: (segment, point) pairs over 6 decades of distance/length, any orientation, "
         "points before/inside/after the segment, next to and exactly at the end points, exactly on the line, at distance 0 "
         "(exact lattice configurations scaled by powers of two and their ulp neighbours); mortar segment pairs by overlap "
         "class (disjoint/partial/nested/touching/aligned ends) x relative orientation (facing parallel, same-direction "
         "parallel, slightly inclined, nearly coinciding normals, arbitrary, perpendicular) x length ratio (6 decades) x "
-        "scale (6 decades) x sign of the gap, each evaluated in two rigid placements, two normal policies and two smoothing "
-        "sizes; facing polylines for the assembled integrals; jittered meshes with random displacement against plane / "
+        "sign of the gap, each evaluated in two rigid placements and after a change of the length unit (to another size band; "
+        "an exact power of two half of the time), two normal policies and two smoothing sizes; facing polylines for the assembled integrals; jittered meshes with random displacement against plane / "
         "corner / circle obstacles (none / some / all sample points penetrating). Non-trivial = the batch contains a point "
         "off the segment's line or a pair with positive overlap, or a displaced mesh; distinct = seeded parameter hash.")
 ASSUMPTIONS = [
@@ -59,6 +61,12 @@ REQUIRED = {
         "gap_points_checked": 100, "gap_sign_checked": 50,
         "levelset_points_checked": 500, "penalty_none_penetrating": 6, "penalty_some_penetrating": 6, "penalty_all_penetrating": 6,
         "obstacle_plane": 8, "obstacle_corner": 8, "obstacle_circle": 8,
+        "cpp_scale_tiny": 1200, "cpp_scale_small": 1200, "cpp_scale_unit": 1200, "cpp_scale_large": 1200,
+        "mortar_scale_tiny": 1500, "mortar_scale_small": 1500, "mortar_scale_unit": 1500, "mortar_scale_large": 1500,
+        "mortar_scale_invariance_checked": 8000, "mortar_rescaled_to_tiny": 1500, "mortar_rescaled_to_large": 1500,
+        "assembly_scale_tiny": 2, "assembly_scale_small": 2, "assembly_scale_unit": 2, "assembly_scale_large": 2,
+        "gap_scale_tiny": 4, "gap_scale_small": 4, "gap_scale_unit": 4, "gap_scale_large": 4,
+        "levelset_scale_tiny": 10, "levelset_scale_small": 10, "levelset_scale_unit": 10, "levelset_scale_large": 10,
         "class:cpp_random": 4, "class:cpp_corner": 2, "class:mortar_parallel_facing": 2, "class:mortar_same_direction": 2,
         "class:mortar_aligned": 2, "class:mortar_inclined": 2, "class:mortar_near_coinciding": 1, "class:mortar_arbitrary": 2,
         "class:mortar_assembly": 4, "class:contact_gap": 4, "class:levelset_penalty": 9,
@@ -194,7 +202,8 @@ def _run_cpp(res, case):
     res.count("cpp_at_end_point_exact", int(((P == E[:, 0]).all(1) | (P == E[:, 1]).all(1)).sum()))
     res.count("cpp_on_line_exact", int((sidef == 0.0).sum()))
     res.count("cpp_distance_zero_exact", int((onp.asarray(dr, float) == 0.0).sum()))
-    res.count("cpp_length_decade_%+d" % int(math.floor(math.log10(float(onp.median(Ls))))))
+    for j in range(NB):
+        res.count("cpp_scale_" + Gn.band_of(Ls[j]))
     ratio = onp.asarray(dr, float) / Ls
     with onp.errstate(divide="ignore"):
         dec = onp.floor(onp.log10(ratio))
@@ -261,7 +270,12 @@ def _run_mortar(res, case):
     rng = rng_of(case["seed"])
     cls = case["cls"]
     NB = int(case.get("nb", NB_QUICK))
-    (A1, B1), (A2, B2), kinds = Gn.mortar_batch(rng, NB, cls)
+    (A1, B1), (A2, B2), (A3, B3, F), kinds = Gn.mortar_batch(rng, NB, cls)
+    SCALE_POW = onp.array([1, 1, 1, 1, 2, 3, 2])          # I[f] scales like length^k under a change of unit
+    Lm_all = onp.maximum(onp.linalg.norm(A1[:, 1] - A1[:, 0], axis=1), onp.linalg.norm(B1[:, 1] - B1[:, 0], axis=1))
+    for j in range(NB):
+        res.count("mortar_scale_" + Gn.band_of(Lm_all[j]))
+        res.count("mortar_rescaled_to_" + Gn.band_of(Lm_all[j] * F[j]))
     kinds = onp.array(kinds)
     for k in set(kinds.tolist()):
         res.count("mortar_kind_" + k, int((kinds == k).sum()))
@@ -299,8 +313,9 @@ def _run_mortar(res, case):
             f = _mortar_func(policy, smoothing)
             I1 = onp.asarray(f(np.array(A1), np.array(B1)))
             I2 = onp.asarray(f(np.array(A2), np.array(B2)))
+            I3 = onp.asarray(f(np.array(A3), np.array(B3)))
             res.count("mortar_smoothing_%s" % ("default" if smoothing is None else "1e-9"), NB)
-            fin = onp.isfinite(I1).all(1) & onp.isfinite(I2).all(1)
+            fin = onp.isfinite(I1).all(1) & onp.isfinite(I2).all(1) & onp.isfinite(I3).all(1)
 
             def mech(j, lost=False):
                 if d15[j]:
@@ -312,7 +327,8 @@ def _run_mortar(res, case):
             def detail(j, **kw):
                 dct = {"A": A1[j].tolist(), "B": B1[j].tolist(), "A2": A2[j].tolist(), "B2": B2[j].tolist(), "kind": str(kinds[j]),
                        "policy": policy, "smoothing": lrel, "nA_minus_nB": float(c[j]), "kappa": float(kap[j]),
-                       "I1": dict(zip(INTEGRAND_NAMES, I1[j].tolist())), "I2": dict(zip(INTEGRAND_NAMES, I2[j].tolist()))}
+                       "I1": dict(zip(INTEGRAND_NAMES, I1[j].tolist())), "I2": dict(zip(INTEGRAND_NAMES, I2[j].tolist())),
+                       "unit_change": float(F[j]), "I3": dict(zip(INTEGRAND_NAMES, I3[j].tolist()))}
                 dct.update(kw)
                 return dct
 
@@ -342,7 +358,7 @@ def _run_mortar(res, case):
                     res.violate(clause, detail(int(j), ratio=float(r[j]), **(extra(int(j)) if extra else {})), mm)
 
             # the overlap of a pair with aligned ends is "lost" when one placement returns (numerically) nothing
-            lost = aligned & ((onp.abs(I1[:, 0]) <= 1e-6 * ovl) | (onp.abs(I2[:, 0]) <= 1e-6 * ovl))
+            lost = aligned & ((onp.abs(I1[:, 0]) <= 1e-6 * ovl) | (onp.abs(I2[:, 0]) <= 1e-6 * ovl) | (onp.abs(I3[:, 0]) <= 1e-6 * ovl * F))
 
             # 0. finiteness (a NaN integral can satisfy nothing below)
             report("mortar_finite", onp.where(fin, 0.0, onp.inf))
@@ -353,6 +369,12 @@ def _run_mortar(res, case):
                 rinv = (onp.abs(I1 - I2) / tol_inv).max(1)
             report("mortar_rigid_motion_invariance", onp.where(chk, rinv, 0.0), lost_flags=lost, applicable=chk)
             res.count("mortar_invariance_checked", int(chk.sum()))
+            # 1b. change of length unit: I[f](s A, s B) = s^k I[f](A, B)  (the smoothing size is relative)
+            with onp.errstate(invalid="ignore", divide="ignore", over="ignore"):
+                Fk = F[:, None] ** SCALE_POW[None, :]
+                rsc = (onp.abs(I3 - Fk * I1) / (tol_inv * Fk)).max(1)
+            report("mortar_scale_invariance", onp.where(chk, rsc, 0.0), lost_flags=lost, applicable=chk)
+            res.count("mortar_scale_invariance_checked", int(chk.sum()))
             # 2. zero without overlap
             noov = ok & (sep > 1e-6 * Lm) & ~illcond
             with onp.errstate(invalid="ignore", divide="ignore"):
@@ -467,6 +489,7 @@ def _run_assembly(res, case):
     res.count("assembly_policy_" + policy)
     res.count("assembly_maxneighbors_%d" % maxn)
     res.count("assembly_mode_" + pp["mode"])
+    res.count("assembly_scale_" + Gn.band_of(pp["span"]))
     nN = X.shape[0]
     sB, sA, h, span = pp["sB"], pp["sA"], pp["h"], pp["span"]
     ctx = {"policy": policy, "maxNeighbors": maxn, "mode": pp["mode"], "coords": coords1.tolist(), "disp": disp1.tolist(),
@@ -533,7 +556,8 @@ def _fixed_topology_mesh(rng):
     interior = (c[:, 0] > 0) & (c[:, 0] < 1) & (c[:, 1] > 0) & (c[:, 1] < 1)
     c[interior] += rng.uniform(-0.1, 0.1, size=(int(interior.sum()), 2))
     A, b = meshes.random_affine(rng, ["rot", "aniso", "shear", "id"][int(rng.integers(0, 4))])
-    s = 10.0 ** rng.uniform(-2, 2)
+    from vlib.gen import c16_pairs as Gn
+    s = Gn.abs_scale(rng)
     c = (c @ onp.asarray(A).T + b) * s
     conns = onp.asarray(base.conns)
     return base._replace(coords=jnp.array(c)), c, conns, s
@@ -607,6 +631,8 @@ def _run_gap(res, case):
     res.bound("gap_magnitude_is_distance_to_listed_edges", worst, 1.0, wd)
     res.count("gap_sign_checked", nsign)
     res.count("gap_nq%d" % nq)
+    from vlib.gen import c16_pairs as Gn
+    res.count("gap_scale_" + Gn.band_of(s))
     res.nontrivial = True
 
 
@@ -700,6 +726,8 @@ def _run_levelset(res, case):
     res.count("levelset_points_checked", 8 * nq)
     res.count("obstacle_" + kind)
     res.count("levelset_nq%d" % nq)
+    from vlib.gen import c16_pairs as Gn
+    res.count("levelset_scale_" + Gn.band_of(s))
     # penalty energy
     res.expect("penalty_energy_nonnegative", math.isfinite(energy) and energy >= 0.0, dict(ctx, energy=energy))
     band = 1e-9 * Sx
